@@ -43,6 +43,15 @@ theorem hasValidSignatures_sound (valid : Sig → Key → Msg → Bool) (m : Msg
 
 example : hasValidSignatures xValid 7 [xSign 3 7, 5, xSign 1 7] 2 [1, 2, 3] = true := by decide
 
+/-- The same as an explicit INJECTIVE ASSIGNMENT: `n` pairs (signature position, key position) such that any two pairs
+    differ in the signature position and in the key position, and the signature at the first position verifies under the
+    key at the second. -/
+theorem hasValidSignatures_injective_assignment (valid : Sig → Key → Msg → Bool) (m : Msg) (sigs : List Sig) (n : Nat)
+    (keys : List Key) (h : hasValidSignatures valid m sigs n keys = true) :
+    ∃ pairs : List (Nat × Nat), pairs.length = n ∧ pairs.Pairwise (fun a b => a.1 ≠ b.1 ∧ a.2 ≠ b.2) ∧
+      ∀ p ∈ pairs, ∃ s k, sigs[p.1]? = some s ∧ keys[p.2]? = some k ∧ valid s k m = true :=
+  (signed_iff_assigned valid m sigs keys n).1 (hasValidSignatures_sound valid m sigs n keys h)
+
 /-- …in particular never more signers than listed keys, whatever the signatures are (the F6 shape is impossible). -/
 theorem hasValidSignatures_le_keys (valid : Sig → Key → Msg → Bool) (m : Msg) (sigs : List Sig) (n : Nat) (keys : List Key)
     (h : hasValidSignatures valid m sigs n keys = true) : n ≤ keys.length ∧ n ≤ sigs.length :=
@@ -66,6 +75,19 @@ theorem hasValidSignatures_complete (valid : Sig → Key → Msg → Bool) (m : 
 theorem hasValidSignatures_iff (valid : Sig → Key → Msg → Bool) (m : Msg) (sigs : List Sig) (n : Nat) (keys : List Key)
     (hu : UniqueSigner valid m keys) : hasValidSignatures valid m sigs n keys = true ↔ Signed valid m sigs keys n :=
   ⟨hasValidSignatures_sound valid m sigs n keys, hasValidSignatures_complete valid m sigs n keys hu⟩
+
+/-- …and conversely from ANY injective assignment of `n` positions -/
+theorem hasValidSignatures_of_assignment (valid : Sig → Key → Msg → Bool) (m : Msg) (sigs : List Sig) (n : Nat) (keys : List Key)
+    (hu : UniqueSigner valid m keys) (h : Assigned valid m sigs keys n) : hasValidSignatures valid m sigs n keys = true :=
+  hasValidSignatures_complete valid m sigs n keys hu ((signed_iff_assigned valid m sigs keys n).2 h)
+
+example : Assigned xValid 7 [xSign 2 7, 912, xSign 3 7] [1, 2, 3] 2 :=
+  ⟨[(0, 1), (2, 2)], rfl, by decide, by
+    intro p hp
+    simp only [List.mem_cons, List.not_mem_nil, or_false] at hp
+    rcases hp with rfl | rfl
+    · exact ⟨_, _, rfl, rfl, by decide⟩
+    · exact ⟨_, _, rfl, rfl, by decide⟩⟩
 
 example : UniqueSigner xValid 7 [1, 2, 3] ∧ canSign xValid 7 [xSign 2 7, 912, xSign 3 7] [1, 2, 3] 2 = true :=
   ⟨xValid_unique _ _, by decide⟩
